@@ -306,7 +306,11 @@ CHECKS["C06"] = dict(
                 "log.Logger, into recording destinations (plain, SyncWriter, MultiLevelWriter, ConsoleWriter.Out, log.Logger) that copy and checksum "
                 "their argument on entry and exit around an injected delay (Gosched / sleep / block until another write arrives), look the event up by "
                 "its unique id and compare bytes, count deliveries and overlapping calls; a toggler flips the global level and the sampling switch "
-                "meanwhile. Run both without and with the Go race detector (which also enables checkptr), GOMAXPROCS in {1,2,16}."),
+                "meanwhile (half of the workers of the unsampled runs log through an admit-all sampler, so that the switch is read on every event). "
+                "Entry points WithLevel / Info / Warn / Error / Err, finalizers Msg / Msgf / MsgFunc / Send; children whose context holds Dict, Array, "
+                "Fields and Object; SyncWriter over a LevelWriter and over a plain io.Writer; shared samplers are a BasicSampler or a LevelSampler "
+                "over BurstSamplers; destination kind, G, GOMAXPROCS and sampler use are decoded from independent digits of the run number. "
+                "Run both without and with the Go race detector (which also enables checkptr), GOMAXPROCS in {1,2,16}."),
     technique="runtime monitoring: race detector + recording/checksumming writers with injected delays, exactly-once and byte-identity accounting",
     stages=_c06_stages,
     rule=("one case = one concurrent run (G workers x K events, one destination kind, one GOMAXPROCS value); all non-trivial (G >= 2); distinct by "
